@@ -39,3 +39,68 @@ package keygen
 //@   modifies *
 //@   loop 0 invariant round.started
 //@   loop 1 invariant round.started
+
+// ----- round_3.go -----
+//@ func (*KGRound2Message1).UnmarshalShare
+//@   props C06 C15
+//@   requires m != nil
+//@   ensures result != nil && fresh(result) && val(result) >= 0
+//@ func (*KGRound2Message2).UnmarshalDeCommitment
+//@   props C06 C16
+//@   requires m != nil
+//@   ensures fresh(result) && len(result) == len(m.DeCommitment) && (forall k in 0..len(result) :: (result[k] != nil && val(result[k]) >= 0))
+//@ func (*KGRound2Message2).UnmarshalZKProof
+//@   props C06 C17
+//@   requires m != nil && !isnil(ec)
+//@   ensures result1 != nil ==> result0 == nil
+//@   ensures [C17.proof-commitment-is-on-the-curve] result1 == nil ==> (result0 != nil && fresh(result0) && result0.Alpha != nil && validPoint(result0.Alpha) && result0.Alpha.curve == ec && result0.T != nil && val(result0.T) >= 0)
+
+//@ define kg2m1slotEd(m) = (!isnil(m) && istype(msgcontent(m), "*eddsa/keygen.KGRound2Message1") && cast(msgcontent(m), "*eddsa/keygen.KGRound2Message1") != nil)
+//@ define kg2m2slotEd(m) = (!isnil(m) && istype(msgcontent(m), "*eddsa/keygen.KGRound2Message2") && cast(msgcontent(m), "*eddsa/keygen.KGRound2Message2") != nil && len(cast(msgcontent(m), "*eddsa/keygen.KGRound2Message2").DeCommitment) <= 8192)
+// a row of de-committed, cofactor-cleared, share-verified Feldman commitments of one peer
+//@ define kgRowEd(round, s) = (len(s) == round.Parameters.threshold + 1 && (forall c in 0..len(s) :: (validPoint(s[c]) && s[c].curve == round.Parameters.ec)))
+
+// the verification goroutine for peer j: exactly one result is sent; a result without an error carries peer j's verified commitment row
+//@ func (*round3).Start$1
+//@   props C06 C05 C03 C15
+//@   requires round != nil && round.round2 != nil && round.round2.round1 != nil && round.round2.round1.base != nil
+//@   requires edKgWF(round)
+//@   requires 0 <= j && j < kgN(round) && j != round.Parameters.partyID.Index && ch != nil && len(ContextJ) <= 1048576
+//@   requires kg2m1slotEd(round.temp.kgRound2Message1s[j]) && kg2m2slotEd(round.temp.kgRound2Message2s[j])
+//@   requires [threshold-range] 0 <= round.Parameters.threshold && round.Parameters.threshold < 1024
+//@   modifies sent(ch), allfield("crypto.ECPoint", "curve")
+//@   ensures sent(ch) == old(sent(ch)) + 1
+//@   ensures [C03.a-result-without-error-carries-a-verified-commitment-row] isnil(sentf(ch, old(sent(ch)), "unWrappedErr")) ==> (kgRowEd(round, sentf(ch, old(sent(ch)), "pjVs")) && fresh(sentf(ch, old(sent(ch)), "pjVs")))
+//@   ensures [C20.curve-field-rewritten-with-same-value] fieldheap("crypto.ECPoint", "curve") == old(fieldheap("crypto.ECPoint", "curve"))
+//@   loop 0 invariant (forall c in 0..$iter :: (validPoint(PjVs[c]) && PjVs[c].curve == round.Parameters.ec)) && (forall c in $iter..len(PjVs) :: (validPoint(PjVs[c]) && PjVs[c].curve == round.Parameters.ec)) && (isnil(PjVs) || fresh(PjVs))
+
+//@ define kgChRes(round, ch) = (isnil(sentf(ch, 0, "unWrappedErr")) ==> kgRowEd(round, sentf(ch, 0, "pjVs")))
+//@ func (*round3).Start
+//@   deadpoints 8
+//@   note the error branches after ECPoint.Add (loops 7 and 9) and after NewECPoint of the summed key are unreachable on the Edwards curve (lemma L-edwards-closed)
+//@   props C06 C05 C03
+//@   requires round != nil && round.round2 != nil && round.round2.round1 != nil && round.round2.round1.base != nil && edKgWF(round)
+//@   requires [threshold-range] 0 <= round.Parameters.threshold && round.Parameters.threshold < 1024 && round.Parameters.partyCount == kgN(round) && kgN(round) >= 2
+//@   requires [round-2-complete] forall j in 0..kgN(round) :: (j != round.Parameters.partyID.Index ==> (kg2m1slotEd(round.temp.kgRound2Message1s[j]) && kg2m2slotEd(round.temp.kgRound2Message2s[j])))
+//@   requires [own-dealing] len(round.temp.shares) == kgN(round) && round.temp.shares[round.Parameters.partyID.Index] != nil && round.temp.shares[round.Parameters.partyID.Index].Share != nil && kgRowEd(round, round.temp.vs) && len(round.temp.ssid) <= 4096 && len(round.save.BigXj) == kgN(round)
+//@   modifies round.number, round.started, round.ok[*], round.save.Xi, round.save.BigXj[*], round.save.BigXj, round.save.EDDSAPub, sent(round.end), allfield("crypto.ECPoint", "curve")
+//@   ensures [C03.key-data-emitted-once-and-only-on-success] (result == nil ==> sent(old(round.end)) == old(sent(round.end)) + 1) && (result != nil ==> sent(old(round.end)) == old(sent(round.end)))
+//@   loop 0 invariant round.started && xi != nil && fresh(xi) && Ps == round.Parameters.parties.partyIDs && PIdx == round.Parameters.partyID.Index && sent(round.end) == old(sent(round.end))
+//@   loop 1 invariant kgRowEd(round, round.temp.vs) && arr(Vc) != arr(round.temp.vs) && round.started && fresh(Vc) && len(Vc) == round.Parameters.threshold + 1 && (forall k in 0..$iter :: (validPoint(Vc[k]) && Vc[k].curve == round.Parameters.ec)) && Ps == round.Parameters.parties.partyIDs && PIdx == round.Parameters.partyID.Index && sent(round.end) == old(sent(round.end))
+//@   loop 2 invariant round.started && fresh(Vc) && kgRowEd(round, Vc) && fresh(chs) && len(chs) == kgN(round) && arr(chs) != arr(Vc) && Ps == round.Parameters.parties.partyIDs && PIdx == round.Parameters.partyID.Index && sent(round.end) == old(sent(round.end))
+//@   loop 2 invariant (forall k in 0..$iter :: (k != PIdx ==> (chs[k] != nil && fresh(chs[k]) && sent(chs[k]) == 0 && recvd(chs[k]) == 0 && chs[k] != round.end))) && (forall a, b in 0..$iter :: ((a != b && a != PIdx && b != PIdx) ==> chs[a] != chs[b]))
+//@   loop 3 invariant round.started && fresh(Vc) && kgRowEd(round, Vc) && fresh(chs) && len(chs) == kgN(round) && Ps == round.Parameters.parties.partyIDs && PIdx == round.Parameters.partyID.Index && sent(round.end) == old(sent(round.end))
+//@   loop 3 invariant (forall k in 0..kgN(round) :: (k != PIdx ==> (chs[k] != nil && fresh(chs[k]) && recvd(chs[k]) == 0 && chs[k] != round.end))) && (forall a, b in 0..kgN(round) :: ((a != b && a != PIdx && b != PIdx) ==> chs[a] != chs[b]))
+//@   loop 3 invariant forall k in 0..kgN(round) :: (k != PIdx ==> ((k < $iter ==> (sent(chs[k]) == 1 && kgChRes(round, chs[k]))) && (k >= $iter ==> sent(chs[k]) == 0)))
+//@   loop 4 invariant round.started && fresh(Vc) && kgRowEd(round, Vc) && fresh(chs) && len(chs) == kgN(round) && fresh(vssResults) && len(vssResults) == kgN(round) && fresh(culprits) && arr(vssResults) != arr(chs) && Ps == round.Parameters.parties.partyIDs && PIdx == round.Parameters.partyID.Index && sent(round.end) == old(sent(round.end))
+//@   loop 4 invariant (forall k in 0..kgN(round) :: (k != PIdx ==> (chs[k] != nil && chs[k] != round.end))) && (forall a, b in 0..kgN(round) :: ((a != b && a != PIdx && b != PIdx) ==> chs[a] != chs[b]))
+//@   loop 4 invariant forall k in $iter..kgN(round) :: (k != PIdx ==> (sent(chs[k]) == 1 && recvd(chs[k]) == 0 && kgChRes(round, chs[k])))
+//@   loop 4 invariant forall k in 0..$iter :: (k != PIdx ==> (isnil(vssResults[k].unWrappedErr) ==> kgRowEd(round, vssResults[k].pjVs)))
+//@   loop 4 invariant len(culprits) == 0 ==> (forall k in 0..$iter :: (k != PIdx ==> isnil(vssResults[k].unWrappedErr)))
+//@   loop 5 invariant round.started && sent(round.end) == old(sent(round.end)) && len(culprits) > 0
+//@   loop 6 invariant round.started && fresh(Vc) && kgRowEd(round, Vc) && fresh(vssResults) && len(vssResults) == kgN(round) && fresh(culprits) && len(culprits) == 0 && Ps == round.Parameters.parties.partyIDs && PIdx == round.Parameters.partyID.Index && sent(round.end) == old(sent(round.end))
+//@   loop 6 invariant forall k in 0..kgN(round) :: (k != PIdx ==> (kgRowEd(round, vssResults[k].pjVs) && arr(vssResults[k].pjVs) != arr(Vc)))
+//@   loop 7 invariant round.started && 0 <= c && c <= round.Parameters.threshold + 1 && fresh(Vc) && kgRowEd(round, Vc) && fresh(vssResults) && len(vssResults) == kgN(round) && fresh(culprits) && len(culprits) == 0 && Ps == round.Parameters.parties.partyIDs && PIdx == round.Parameters.partyID.Index && sent(round.end) == old(sent(round.end)) && kgRowEd(round, PjVs) && arr(PjVs) != arr(Vc)
+//@   loop 7 invariant forall k in 0..kgN(round) :: (k != PIdx ==> (kgRowEd(round, vssResults[k].pjVs) && arr(vssResults[k].pjVs) != arr(Vc)))
+//@   loop 8 invariant round.started && 0 <= j && j <= kgN(round) && fresh(Vc) && kgRowEd(round, Vc) && fresh(culprits) && len(culprits) == 0 && modQ != nil && val(modQ) == edN && bigXj == round.save.BigXj && len(bigXj) == kgN(round) && arr(bigXj) != arr(Vc) && sent(round.end) == old(sent(round.end)) && wfIDs(round.Parameters.parties.partyIDs)
+//@   loop 9 invariant round.started && 0 <= j && j < kgN(round) && 1 <= c && c <= round.Parameters.threshold + 1 && fresh(Vc) && kgRowEd(round, Vc) && fresh(culprits) && len(culprits) == 0 && modQ != nil && val(modQ) == edN && bigXj == round.save.BigXj && len(bigXj) == kgN(round) && arr(bigXj) != arr(Vc) && sent(round.end) == old(sent(round.end)) && wfIDs(round.Parameters.parties.partyIDs) && kj != nil && val(kj) >= 0 && z != nil && val(z) >= 0 && validPoint(BigXj) && BigXj.curve == round.Parameters.ec && Pj != nil
